@@ -125,7 +125,9 @@ Cons(m, g, ev) ==
     [] m = "C05_nonneg"   -> \A a \in g.accts : obs.asset[a] >= 0 /\ obs.sh[a] >= 0
     [] m = "C01_vault_sum"  -> obs.supply = SumOver(obs.sh, g.accts)
     [] m = "C01_vault_fail" -> /\ obs.asset = g.asset /\ obs.sh = g.sh /\ obs.supply = g.supply
-                               /\ obs.sal = g.sal /\ obs.aal = g.aal
+                               /\ \A a \in g.accts : \A b \in g.accts :
+                                     /\ (obs.sal[a][b] = g.sal[a][b] \/ obs.sal[a][b] = 0)
+                                     /\ (obs.aal[a][b] = g.aal[a][b] \/ obs.aal[a][b] = 0)
     [] m = "C01_vault_events" -> ShareEvents(ev.evs) = (IF ok THEN ExpEvents(o, ev.ret) ELSE << >>)
     [] m = "C01_vault_delta"  -> /\ obs.sh = ExpSh(g, o, 0) /\ obs.supply = g.supply
                                  /\ obs.asset = g.asset
@@ -144,7 +146,7 @@ Cons(m, g, ev) ==
                /\ obs.sal[a][o.oper] = g.sal[a][o.oper] - taken
     [] m = "C02_vault_allow" ->
          \A ow \in g.accts : \A s \in g.accts :
-            obs.sal[ow][s] # g.sal[ow][s] =>
+            (obs.sal[ow][s] # g.sal[ow][s] /\ obs.sal[ow][s] # 0) =>
               \/ ok /\ o.op = "sapprove" /\ o.own = ow /\ o.oper = s /\ ow \in o.auth
               \/ ok /\ o.op \in Leave \cup {"stransfer_from"} /\ o.own = ow /\ o.oper = s
                     /\ obs.sal[ow][s] < g.sal[ow][s]
